@@ -114,11 +114,85 @@ def run(ctx):
                 processes(ctx, pws, set(), set())
                 shutil.rmtree(proot, ignore_errors=True)
             shutil.rmtree(root, ignore_errors=True)
+        directed_permutations(ctx, vh, K)
         for j in range(1 if quick else 10):
             symbols_across_processes(ctx, j)
+        registration_race(ctx, 12 if quick else 300)
     finally:
         vh.close()
     ctx.extra["distinct_snapshots_seen"] = len(snaps_seen)
+
+
+def directed_permutations(ctx, vh, K):
+    """hand-written layouts around names that are defined more than once but are NOT visible from the requesting file
+    (nothing about them is order-sensitive): all orders of registration must give the same answers"""
+    H = "import pytest\n\n"
+    layouts = {
+        "invisible_dependency_with_two_scopes": {
+            "a/conftest.py": H + "@pytest.fixture\ndef dep():\n    return 1\n",
+            "b/conftest.py": H + "@pytest.fixture(scope=\"session\")\ndef dep():\n    return 2\n",
+            "c/conftest.py": H + "@pytest.fixture(scope=\"session\")\ndef wide(dep):\n    return dep\n\n@pytest.fixture(scope=\"module\")\ndef mid(dep, wide):\n    return 1\n",
+            "c/test_mod.py": "def test_c(wide, mid, dep):\n    v = dep\n",
+            "a/test_a.py": "def test_a(dep):\n    pass\n", "b/test_b.py": "def test_b(dep):\n    pass\n"},
+        "invisible_names_in_body_and_marks": {
+            "a/conftest.py": H + "@pytest.fixture\ndef only_a():\n    return 1\n\n@pytest.fixture(autouse=True)\ndef auto_a():\n    return 1\n",
+            "b/conftest.py": H + "@pytest.fixture(scope=\"module\")\ndef only_a():\n    return 2\n\n@pytest.fixture\ndef auto_a():\n    return 3\n",
+            "c/test_mod.py": H + "@pytest.mark.usefixtures(\"only_a\")\ndef test_c(auto_a):\n    x = only_a\n"},
+    }
+    for lname, files in layouts.items():
+        root = ctx.scratch("dir_" + lname)
+        ws = gen.WS(root)
+        ws.files = dict(files)
+        ws.spec = {"directed": lname, "depth": 1, "names": []}
+        write_tree(root, ws.files)
+        rels = sorted(files)
+        base = None
+        import itertools
+        orders = list(itertools.permutations(rels))
+        ctx.rng.shuffle(orders)
+        for k, order in enumerate([tuple(rels)] + orders[: max(K, 8)]):
+            db = vh.new_db()
+            vh.call(op="batch", cmds=[{"op": "analyze_fresh", "db": db, "path": ws.abs(r), "text": ws.files[r]} for r in order])
+            q = keyed_queries(vh.call(op="queries", db=db, files=[ws.abs(r) for r in rels]))
+            vh.call(op="drop_db", db=db)
+            if base is None:
+                base = q
+            else:
+                ctx.judged()
+                judge(ctx, ws, base, q, set(), set(), ("directed-permutation", lname, list(order)), root)
+                ctx.nontrivial(("directed_perm", lname, k))
+        shutil.rmtree(root, ignore_errors=True)
+
+
+def registration_race(ctx, scans):
+    """many files that all define the same names, scanned in parallel (16 workers, injected delays at the map locks):
+    after every scan each name has exactly one definition per file"""
+    root = ctx.scratch("race")
+    ndirs, nnames = 40, 30
+    files = {}
+    for d_ in range(ndirs):
+        files[f"p{d_}/conftest.py"] = "import pytest\n\n" + "".join(f"@pytest.fixture\ndef same_{k}():\n    return {k}\n\n" for k in range(nnames))
+        files[f"p{d_}/test_u.py"] = "def test_u(same_0, same_1):\n    pass\n"
+    write_tree(root, files)
+    p = VH(vh_bin(), env={"RAYON_NUM_THREADS": "16", "VERIF_DELAY": f"{ctx.seed + 3}:150000", "VERIF_SHARDS": "2"})
+    try:
+        for k in range(scans):
+            db = p.new_db()
+            r = p.call(op="scan", db=db, root=root, timeout=300)
+            raw = p.call(op="raw", db=db)
+            p.call(op="drop_db", db=db)
+            ctx.judged()
+            bad = {n: len(v) for n, v in raw["definitions"].items() if n.startswith("same_") and len(v) != ndirs}
+            missing = [f"same_{i}" for i in range(nnames) if f"same_{i}" not in raw["definitions"]]
+            if bad or missing:
+                ctx.violation({"kind": "definitions-lost-or-duplicated-by-parallel-registration"},
+                              {"scan": k, "counts": dict(list(bad.items())[:5]), "missing": missing[:5], "expected_per_name": ndirs})
+                break
+        ctx.nontrivial(("registration_race", scans > 0))
+        ctx.count("registration_race_scans", scans)
+    finally:
+        p.close()
+        shutil.rmtree(root, ignore_errors=True)
 
 
 def symbols_across_processes(ctx, j):
